@@ -26,6 +26,21 @@ Vars(e) ==
 VarsOfSeq(s, k) == IF k > Len(s) THEN {} ELSE Vars(s[k]) \cup VarsOfSeq(s, k + 1)
 VarsOfKw(s, k)  == IF k > Len(s) THEN {} ELSE Vars(s[k][2]) \cup VarsOfKw(s, k + 1)
 
+\* every name an expression mentions, function symbols included (C18: a function symbol may be declared free)
+RECURSIVE Names(_), NamesOfSeq(_, _), NamesOfKw(_, _)
+Names(e) ==
+    CASE e[1] = "v" -> {e[2]}
+      [] e[1] \in {"c", "cb", "cx", "none", "s", "x"} -> {}
+      [] e[1] \in {"sum", "prod", "and", "or", "min", "max", "tuple", "nparr"} -> NamesOfSeq(e[2], 1)
+      [] e[1] \in {"pow", "quot", "fdiv", "rem"} -> Names(e[2]) \cup Names(e[3])
+      [] e[1] = "cmp" -> Names(e[3]) \cup Names(e[4])
+      [] e[1] = "not" -> Names(e[2])
+      [] e[1] = "if" -> Names(e[2]) \cup Names(e[3]) \cup Names(e[4])
+      [] e[1] = "sub" -> Names(e[2]) \cup NamesOfSeq(e[3], 1)
+      [] e[1] = "call" -> Names(e[2]) \cup NamesOfSeq(e[3], 1) \cup NamesOfKw(e[4], 1)
+NamesOfSeq(s, k) == IF k > Len(s) THEN {} ELSE Names(s[k]) \cup NamesOfSeq(s, k + 1)
+NamesOfKw(s, k)  == IF k > Len(s) THEN {} ELSE Names(s[k][2]) \cup NamesOfKw(s, k + 1)
+
 ----------------------------------------------------------------------------
 U == <<"u">>
 None == <<"n">>
